@@ -73,3 +73,17 @@ void h_str_to_buffer(void)
     }
     __CPROVER_assert(STR_UNCHANGED(&s, s0), "ST_string_to_buffer.postcondition.7: the string is not modified");
 }
+/* contract stubs of the Latin-1 measure / convert loops (proved in the UTF unit), in case to_buffer / to_latin_1 call them directly */
+struct { unsigned calls; size_t ret; } M2;
+#ifdef STUB_stp_latin_1_measure_from_utf8
+size_t stp_latin_1_measure_from_utf8(const char *utf8, unsigned long size) { M2.calls++; size_t m = nondet_size_t(); __CPROVER_assume(m <= size); M2.ret = m; return m; }
+#endif
+#ifdef STUB_stp_latin_1_convert_from_utf8
+stp_conversion_error_t stp_latin_1_convert_from_utf8(char *dest, const char *utf8, unsigned long size, ST_utf_validation_t validation, _Bool substitute_out_of_range)
+{
+    __CPROVER_assert(M2.ret == 0 || __CPROVER_w_ok(dest, M2.ret), "convert.precondition: the destination has room for the measured number of units");
+    if (M2.ret != 0) __CPROVER_havoc_slice(dest, M2.ret);
+    if ((validation == ST_utf_validation_t_check_validity || !substitute_out_of_range) && nondet_bool()) return stp_conversion_error_t_latin1_out_of_range;
+    return stp_conversion_error_t_success;
+}
+#endif
